@@ -141,6 +141,43 @@ mut('ok-array-dec-empty-shortcut', ['C05', 'C01', 'C02'], M,
       "    end_offset = offset + data_len\n\n    if data_len == 0 and tcode != '{':\n        return offset - start_offset, []\n")],
     kind='benign', note='legitimate shortcut for empty arrays taken after the initial padding')
 
+# ---- C08 ------------------------------------------------------------------
+CL = 'txdbus/client.py'
+mut('c08-return-no-del', ['C08'], CL,
+    [("        if d:\n            del self._pendingCalls[mret.reply_serial]\n            d.callback(mret)",
+      "        if d:\n            d.callback(mret)")], ['C08.D3'])
+mut('c08-error-no-cancel', ['C08'], CL,
+    [("        d, timeout = self._pendingCalls.get(merr.reply_serial, (None, None))\n        if timeout:\n            timeout.cancel()\n",
+      "        d, timeout = self._pendingCalls.get(merr.reply_serial, (None, None))\n")], ['C08.D3'])
+mut('c08-lookup-by-serial', ['C08'], CL,
+    [("        d, timeout = self._pendingCalls.get(mret.reply_serial, (None, None))",
+      "        d, timeout = self._pendingCalls.get(mret.serial, (None, None))")], ['C08.D4', 'C08.D3'])
+mut('c08-register-after-send', ['C08'], CL,
+    [("            self._pendingCalls[mcall.serial] = (d, timeout)\n\n            self.sendMessage(mcall)\n",
+      "            self.sendMessage(mcall)\n\n            self._pendingCalls[mcall.serial] = (d, timeout)\n")], ['C08.D2'])
+mut('c08-timeout-no-del', ['C08'], CL,
+    [("        del self._pendingCalls[serial]\n        d.errback(error.TimeOut('Method call timed out'))",
+      "        d.errback(error.TimeOut('Method call timed out'))")], ['C08.D3'])
+mut('c08-timeout-wrong-error', ['C08'], CL,
+    [("d.errback(error.TimeOut('Method call timed out'))", "d.errback(error.RemoteError('Method call timed out'))")], ['C08.D5'])
+mut('c08-timer-not-stored', ['C08'], CL,
+    [("                timeout = reactor.callLater(\n                    timeout, self._onMethodTimeout, mcall.serial, d)",
+      "                reactor.callLater(\n                    timeout, self._onMethodTimeout, mcall.serial, d)")], ['C08.D2'])
+mut('c08-convention-struct-unwrapped', ['C08'], CL,
+    [("        if len(msg.body) == 1 and not msg.signature[0] == '(':", "        if len(msg.body) == 1:")], ['C08.D7'])
+mut('c08-convention-empty-list', ['C08'], CL,
+    [("        if msg.body is None or len(msg.body) == 0:\n            return None", "        if msg.body is None:\n            return None")], ['C08.D7'])
+mut('c08-loss-keeps-table', ['C08', 'C09'], CL,
+    [("            d.errback(reason)\n        self._pendingCalls = {}\n", "            d.errback(reason)\n")], ['C08.D3', 'C09.D3'])
+mut('c08-sigcheck-wrong-exception', ['C08'], CL,
+    [("                    raise error.RemoteError(\n                        'Unexpected return value signature')",
+      "                    raise error.MarshallingError(\n                        'Unexpected return value signature')")], ['C08.D5'])
+mut('ok-c08-pop-refactor', ['C08'], CL,
+    [("        d, timeout = self._pendingCalls.get(mret.reply_serial, (None, None))\n        if timeout:\n            timeout.cancel()\n        if d:\n            del self._pendingCalls[mret.reply_serial]\n            d.callback(mret)",
+      "        d, timeout = self._pendingCalls.pop(mret.reply_serial, (None, None))\n        if d:\n            if timeout is not None:\n                timeout.cancel()\n            d.callback(mret)")], kind='benign')
+mut('ok-c08-convention-rewrite', ['C08'], CL,
+    [("        if msg.body is None or len(msg.body) == 0:\n            return None", "        if not msg.body:\n            return None")], kind='benign')
+
 # benign variants --------------------------------------------------------------
 mut('ok-int16-condexpr', ['C01', 'C02'], M,
     [("return 2, [struct.pack(lendian and '<h' or '>h', var)]",
